@@ -101,6 +101,14 @@ func parseDocker(raw string, kind Kind, first bool) (*URL, error) {
 		}
 	}
 
+	// Reject usernames and container names that could be mistaken for command
+	// line options by docker.
+	if err := ensureNotOptionLike(username, "username"); err != nil {
+		return nil, err
+	} else if err = ensureNotOptionLike(container, "container name"); err != nil {
+		return nil, err
+	}
+
 	// Perform path processing based on URL kind.
 	if kind == Kind_Synchronization {
 		// If the path starts with "/~", then we assume that it's supposed to be
